@@ -68,6 +68,68 @@ static vf::Json case_json(const Cfg& c, const char* fam, uint64_t idx, int image
 }
 
 // API clause: input ends / begins at a guard page, 32-byte output ends at a guard page
+// [guard][4096 usable][guard]: a buffer of n bytes that either starts right after a guard page or ends right before one
+struct GuardBuf {
+	uint8_t* page = nullptr;
+	uint8_t* at(size_t len, bool at_end) {
+		if (!page) { env::Untrack u; page = (uint8_t*)env::sys_mmap(nullptr, 3 * 4096, PROT_READ | PROT_WRITE, MAP_PRIVATE | MAP_ANONYMOUS); syscall(SYS_mprotect, page, 4096, PROT_NONE); syscall(SYS_mprotect, page + 8192, 4096, PROT_NONE); }
+		return at_end ? page + 8192 - len : page + 4096;
+	}
+};
+// [4096 usable][guard]: n output bytes ending at the guard page, the rest of the page is a canary
+struct OutBuf {
+	uint8_t* base = nullptr;
+	uint8_t* prepare(size_t n) {
+		if (!base) { env::Untrack u; base = (uint8_t*)env::sys_mmap(nullptr, 2 * 4096, PROT_READ | PROT_WRITE, MAP_PRIVATE | MAP_ANONYMOUS); syscall(SYS_mprotect, base + 4096, 4096, PROT_NONE); }
+		memset(base, 0xAB, 4096); return base + 4096 - n;
+	}
+	bool clean(size_t n) const { for (size_t i = 0; i < 4096 - n; ++i) if (base[i] != 0xAB) return false; return true; }
+};
+
+// randomx_init_cache reads exactly key[0..n): the key is placed against a guard page on either side; the cache built from it
+// must equal the cache built from an ordinary copy (memory and SuperscalarHash programs, observed through a light hash)
+static std::string key_case(int cflags, size_t len, bool at_end) {
+	static GuardBuf kb; uint8_t* key = kb.at(len, at_end); for (size_t i = 0; i < len; ++i) key[i] = (uint8_t)(i * 13 + len + 1);
+	std::vector<uint8_t> copy(key, key + len); if (copy.empty()) copy.push_back(0);
+	env::Track t;
+	randomx_cache* a = randomx_alloc_cache((randomx_flags)(cflags | LP)); randomx_cache* b = randomx_alloc_cache((randomx_flags)(cflags | LP));
+	if (!a || !b) return "randomx_alloc_cache failed";
+	randomx_init_cache(a, key, len); randomx_init_cache(b, copy.data(), len);
+	std::string d;
+	if (memcmp(a->memory, b->memory, randomx::CacheSize)) d = "cache content depends on the placement of the key buffer";
+	if (d.empty()) { uint8_t ha[32], hb[32]; randomx_vm* va = randomx_create_vm((randomx_flags)((cflags & RANDOMX_FLAG_JIT) | LP), a, nullptr); randomx_vm* vb = randomx_create_vm((randomx_flags)((cflags & RANDOMX_FLAG_JIT) | LP), b, nullptr);
+		if (!va || !vb) d = "randomx_create_vm failed"; else { randomx_calculate_hash(va, "k", 1, ha); randomx_calculate_hash(vb, "k", 1, hb); if (memcmp(ha, hb, 32)) d = "hash depends on the placement of the key buffer"; }
+		if (va) randomx_destroy_vm(va); if (vb) randomx_destroy_vm(vb); }
+	randomx_release_cache(a); randomx_release_cache(b);
+	return d;
+}
+
+// pipelined interface: first(in0) next(in1) last - both inputs against guard pages, both outputs end at a guard page
+static std::string pipe_case(randomx_vm* vm, size_t len0, size_t len1, bool at_end) {
+	static GuardBuf b0, b1; static OutBuf o0, o1;
+	uint8_t* i0 = b0.at(len0, at_end); uint8_t* i1 = b1.at(len1, at_end);
+	for (size_t i = 0; i < len0; ++i) i0[i] = (uint8_t)(i * 7 + len0); for (size_t i = 0; i < len1; ++i) i1[i] = (uint8_t)(i * 11 + len1 + 3);
+	std::vector<uint8_t> c0(i0, i0 + len0), c1(i1, i1 + len1); uint8_t r0[32], r1[32];
+	uint8_t* out0 = o0.prepare(32); uint8_t* out1 = o1.prepare(32);
+	{ env::Track t; randomx_calculate_hash_first(vm, i0, len0); randomx_calculate_hash_next(vm, i1, len1, out0); randomx_calculate_hash_last(vm, out1);
+	  randomx_calculate_hash(vm, c0.data(), len0, r0); randomx_calculate_hash(vm, c1.data(), len1, r1); }
+	if (memcmp(out0, r0, 32) || memcmp(out1, r1, 32)) return "pipelined digest differs from the single-call digest";
+	if (!o0.clean(32) || !o1.clean(32)) return "pipelined hash wrote outside the 32 output bytes";
+	return "";
+}
+
+// randomx_calculate_commitment(input, n, hash_in[32], com_out[32])
+static std::string commit_case(size_t len, bool at_end) {
+	static GuardBuf ib, hb; static OutBuf ob;
+	uint8_t* in = ib.at(len, at_end); for (size_t i = 0; i < len; ++i) in[i] = (uint8_t)(i * 5 + len);
+	uint8_t* h = hb.at(32, at_end); for (int i = 0; i < 32; ++i) h[i] = (uint8_t)(0xC0 + i);
+	uint8_t* out = ob.prepare(32); std::vector<uint8_t> ci(in, in + len); if (ci.empty()) ci.push_back(0); uint8_t ch[32]; memcpy(ch, h, 32); uint8_t ref[32];
+	{ env::Track t; randomx_calculate_commitment(in, len, h, out); randomx_calculate_commitment(ci.data(), len, ch, ref); }
+	if (memcmp(out, ref, 32)) return "commitment depends on the placement of its buffers";
+	if (!ob.clean(32)) return "commitment wrote outside the 32 output bytes";
+	return "";
+}
+
 static std::string api_case(randomx_vm* vm, size_t len, bool at_end) {
 	static uint8_t* page = nullptr; static uint8_t* outp = nullptr;
 	if (!page) { env::Untrack u; page = (uint8_t*)env::sys_mmap(nullptr, 3 * 4096, PROT_READ | PROT_WRITE, MAP_PRIVATE | MAP_ANONYMOUS); syscall(SYS_mprotect, page, 4096, PROT_NONE); syscall(SYS_mprotect, page + 8192, 4096, PROT_NONE);
@@ -100,6 +162,9 @@ int main(int argc, char** argv) {
 				for (uint64_t idx = (uint64_t)r.at("unit_begin").num(); idx <= (uint64_t)r.at("index").num(); ++idx) { f->make(idx, c.v2, q); if (idx % 3 == 0) { static const int ext[4] = { 2, 7, 8, 9 }; set_config_block(q, ext[idx % 4]); } d = rn.run(q, (unsigned)(idx % 4), R); if (idx < (uint64_t)r.at("index").num()) d.clear(); }
 			}
 		}
+		else if (r.at("kind").s == "apikey") d = key_case((int)r.at("flags").num(), (size_t)r.at("len").num(), r.at("at_end").b);
+		else if (r.at("kind").s == "apicommit") d = commit_case((size_t)r.at("len").num(), r.at("at_end").b);
+		else if (r.at("kind").s == "apipipe") { randomx_vm* vm; { env::Track t; vm = randomx_create_vm((randomx_flags)r.at("flags").num(), g_env.cache, nullptr); } d = pipe_case(vm, (size_t)r.at("len").num(), (size_t)r.at("len1").num(), r.at("at_end").b); }
 		else if (r.at("kind").s == "api") { env::Track t; randomx_vm* vm = randomx_create_vm((randomx_flags)r.at("flags").num(), g_env.cache, nullptr); d = api_case(vm, (size_t)r.at("len").num(), r.at("at_end").b); }
 		else d = "size budget: rerun the check";
 		printf("replay: %s\n", d.empty() ? "inside all buffers" : d.c_str()); return d.empty() ? 0 : 1;
@@ -144,7 +209,34 @@ int main(int argc, char** argv) {
 					std::string d = api_case(vm, len, at_end); R.n["api_cases"]++;
 					if (!d.empty() && R.viol.size() < 3) { vf::Violation v; v.key = "c06:api"; v.what = d + " (input length " + std::to_string(len) + (at_end ? ", ending at a guard page)" : ", starting after a guard page)"); v.replay = rp; R.viol.push_back(v); }
 				}
+				// pipelined interface: a few length pairs around the Blake2b block size
+				for (size_t l0 : { 0u, 1u, 64u, 127u, 128u, 129u }) for (size_t l1 : { 0u, 76u, 128u, 255u }) for (int at_end = 0; at_end < 2; ++at_end) {
+					vf::Json rp = vf::Json::obj().set("kind", "apipipe").set("flags", flags).set("len", (unsigned long long)l0).set("len1", (unsigned long long)l1).set("at_end", (bool)at_end).set("finding_key", "c06:api-crash");
+					vf::set_current(rp.dump());
+					std::string d = pipe_case(vm, l0, l1, at_end); R.n["api_cases"]++;
+					if (!d.empty() && R.viol.size() < 3) { vf::Violation v; v.key = "c06:api"; v.what = d + " (first/next/last, input lengths " + std::to_string(l0) + ", " + std::to_string(l1) + ")"; v.replay = rp; R.viol.push_back(v); }
+				}
 				{ env::Track t; randomx_destroy_vm(vm); }
+			}
+			// the key of randomx_init_cache is an input of the API as well: every length, both placements, every cache implementation
+			{
+				std::vector<size_t> klens; if (heavy) klens = th ? std::vector<size_t>{ 0, 1, 59, 60, 61, 62, 63, 64, 65, 127, 128, 129 } : std::vector<size_t>{ 61, 64 };   // the key is read by code that does not depend on the profile: the mini part covers every length
+				else for (size_t l = 0; l <= (th ? 300u : 140u); ++l) klens.push_back(l);
+				std::vector<int> cfl = { (int)RANDOMX_FLAG_DEFAULT, (int)RANDOMX_FLAG_JIT };
+				if (!heavy) for (int j : { 0, (int)RANDOMX_FLAG_JIT }) { cfl.push_back(j | RANDOMX_FLAG_ARGON2_SSSE3); cfl.push_back(j | RANDOMX_FLAG_ARGON2_AVX2); }
+				if (heavy && !th) cfl = { (int)RANDOMX_FLAG_JIT };
+				for (int cf : cfl) for (size_t len : klens) for (int at_end = 0; at_end < 2; ++at_end) {
+					vf::Json rp = vf::Json::obj().set("kind", "apikey").set("flags", cf).set("len", (unsigned long long)len).set("at_end", (bool)at_end).set("finding_key", "c06:api-crash");
+					vf::set_current(rp.dump());
+					std::string d = key_case(cf, len, at_end); R.n["api_cases"]++; R.n["api_key_cases"]++;
+					if (!d.empty() && R.viol.size() < 3) { vf::Violation v; v.key = "c06:api"; v.what = d + " (key length " + std::to_string(len) + (at_end ? ", ending at a guard page)" : ", starting after a guard page)"); v.replay = rp; R.viol.push_back(v); }
+				}
+				for (size_t len = 0; len <= 300; ++len) for (int at_end = 0; at_end < 2; ++at_end) {
+					vf::Json rp = vf::Json::obj().set("kind", "apicommit").set("len", (unsigned long long)len).set("at_end", (bool)at_end).set("finding_key", "c06:api-crash");
+					vf::set_current(rp.dump());
+					std::string d = commit_case(len, at_end); R.n["api_cases"]++;
+					if (!d.empty() && R.viol.size() < 3) { vf::Violation v; v.key = "c06:api"; v.what = d + " (commitment, input length " + std::to_string(len) + ")"; v.replay = rp; R.viol.push_back(v); }
+				}
 			}
 			return R;
 		}
@@ -170,7 +262,7 @@ int main(int argc, char** argv) {
 	vf::Evidence ev; ev.level = "exploration";
 	ev.coverage.set("evaluations", (unsigned long long)(total.n["programs"] + total.n["api_cases"] + total.n["emitted_words_measured"])).set("distinct_nontrivial", (unsigned long long)total.n["programs"])
 		.set("exhaustive", !total.incomplete)
-		.set("rule", std::string("profile ") + RX_PROFILE + ": adversarial program families (saturated programs of every Sigma word, branch-distance, counter-threshold, reduced W1 with extreme immediates, all address registers, sequences; extreme configuration blocks with ma = mx = 0xFFFFFFFF and maximal dataset offset; scratchpad images forcing registers to 0, -1, 2^21-8, 2^32-1) on x86 JIT and interpreter, fast and light, v1/v2, soft/hard AES, with every library buffer (scratchpad, dataset, cache, VM object) ending at a PROT_NONE page and code buffers bracketed by PROT_NONE pages: a fault is a violation; after every code generation: end of the emitted program within the program area, all previously emitted code (SuperscalarHash routine, epilogue) and the unused tail byte-identical; worst-case code size per instruction word measured over all opcodes x register pairs x mod classes x ~250 immediates and a 384-slot program of that word generated for every JIT configuration; API: every input length 0..300 ending at / starting after a guard page, 32-byte output ending at a guard page");
+		.set("rule", std::string("profile ") + RX_PROFILE + ": adversarial program families (saturated programs of every Sigma word, branch-distance, counter-threshold, reduced W1 with extreme immediates, all address registers, sequences; extreme configuration blocks with ma = mx = 0xFFFFFFFF and maximal dataset offset; scratchpad images forcing registers to 0, -1, 2^21-8, 2^32-1) on x86 JIT and interpreter, fast and light, v1/v2, soft/hard AES, with every library buffer (scratchpad, dataset, cache, VM object) ending at a PROT_NONE page and code buffers bracketed by PROT_NONE pages: a fault is a violation; after every code generation: end of the emitted program within the program area, all previously emitted code (SuperscalarHash routine, epilogue) and the unused tail byte-identical; worst-case code size per instruction word measured over all opcodes x register pairs x mod classes x ~250 immediates and a 384-slot program of that word generated for every JIT configuration; API: every input length 0..300 ending at / starting after a guard page, 32-byte output ending at a guard page; the same for the pipelined first/next/last calls (length pairs around the Blake2b block size), for the key of randomx_init_cache (every key length of the alphabet x both placements x every cache implementation: cache content and a hash must equal those obtained from an ordinary copy of the key) and for randomx_calculate_commitment (input 0..300, hash_in against guard pages, 32-byte output)");
 	ev.assumptions = { "guard pages have 4 KiB granularity on the low side of a 64-byte-aligned buffer (the high side is exact)", "reads of the wrong line inside the right buffer are C04's business" };
 	return vf::finish(args, total, ev, true, true);
 }
